@@ -221,7 +221,7 @@ def main(tier, replay):
             lines.append("reset")
             lines += seq
         exh2_text = " + ALL sequences of length 4 over a %d-op core sub-alphabet (%d)" % (len(CORE), len(CORE) ** 4)
-    nrand, lrand = (600, 40) if tier == "quick" else (6000, 120)
+    nrand, lrand = (1500, 40) if tier == "quick" else (10000, 120)
     lines += gen_random(rng, nrand, lrand)
 
     histories = split_histories(lines)
@@ -331,7 +331,8 @@ def main(tier, replay):
              "get_min_indices/next/get) compared after every step with a nested reference index-range map (index range of every level, every element, "
              "size_all, full iteration order, operator==); %d/%d/%d histories on 2-/3-/4-D arrays viewing a shared block (writes both ways, shrink inside, "
              "grow, fill, copy: exact aliasing while only shrunk, no aliasing of a foreign cell ever, block untouched after a resize beyond it in the "
-             "innermost dimension); %d cases of the six 1-D viewing/copying constructors; irregular 2-D arrays (is_contiguous, copy_to, fill_from, "
+             "innermost dimension); %d cases of the six 1-D viewing/copying constructors (alias or copy, shrink inside, set_offset, resize beyond the data with guard cells behind it); "
+             "move construction and swap of Array<1>/VectorWithOffset/NumericVectorWithOffset; irregular 2-D arrays (is_contiguous, copy_to, fill_from, "
              "get_full_data_ptr); %d oracle comparisons in %d steps." % (
                  n_corpus, L, len(ALPHABET), n_exh, exh2_text, nrand, lrand, nh, nh // 2 + 1, nh // 4 + 1, nl, nh, nh // 2 + 1, nh // 4 + 1, nh, nd_checks, nd_steps),
         samples=[histories[0], histories[n_corpus + 12345 % n_exh], histories[-1][:12]],
